@@ -65,7 +65,7 @@ package http
 //@   flag typeassert=panic
 //@   requires trans != nil
 //@   modifies ghost.http_do, ghost.rpos[*], ghost.bufsrc[*], ghost.bufpos[*], ghost.bufn[*], ghost.dict_has[*], ghost.dict_int[*]
-//@   atcall NewReader [request_body_is_exactly_the_request] same(arg0, request)
+//@   atcall NewReader [request_body_is_exactly_the_request] arr(arg0) == arr(request) && off(arg0) == off(request) && len(arg0) == len(request)
 //@   atcall NewRequestWithContext [the_call_carries_its_context] same(arg0, ctx)
 //@   atcall Do [request_sent_unmodified] same(request, old(request))
 //@   ensures [at_most_one_http_exchange] ghost.http_do <= old(ghost.http_do) + 1
